@@ -218,28 +218,31 @@ theorem tryPlace_places {revq : List Nat} {st st' : PState} {aid : Nat} {a : App
 /-! ### which keys the feasibility tracker can hold -/
 
 theorem trackerAdjust_mem {tr : List (TKey × Vec)} {k : TKey} {d : Vec} {kv : TKey × Vec}
-    (h : kv ∈ trackerAdjust tr k d) : kv ∈ tr ∨ kv.1 = k := by
+    (h : kv ∈ trackerAdjust tr k d) : kv ∈ tr ∨ kv = (k, d) := by
   unfold trackerAdjust at h
   split at h
   · rcases List.mem_append.mp h with h1 | h1
     · exact Or.inl h1
-    · simp only [List.mem_singleton] at h1; rw [h1]; exact Or.inr rfl
+    · simp only [List.mem_singleton] at h1; exact Or.inr h1
   · split at h
     · simp only [List.mem_map] at h
       obtain ⟨p, hp, e⟩ := h
       split at e
-      · rw [← e]; exact Or.inr rfl
+      · exact Or.inr e.symm
       · rw [← e]; exact Or.inl hp
     · exact Or.inl h
 
+/-- The tracker only learns `(shape, demand)` of an instance for which `Cell.put` just failed. -/
 theorem tryPlace_tracker {revq : List Nat} {st st' : PState} {aid : Nat} {restore}
     (h : tryPlace revq st aid restore = .ok st') :
-    ∀ kv ∈ st'.tracker, kv ∈ st.tracker ∨ ∃ a2, st.cell.app? aid = some a2 ∧ kv.1 = st.cell.tkey a2 := by
+    ∀ kv ∈ st'.tracker, kv ∈ st.tracker ∨
+      ∃ a2 c3, st.cell.app? aid = some a2 ∧ kv = (st.cell.tkey a2, a2.demand) ∧ cellPut st.cell aid = .ok (c3, false) := by
   simp only [tryPlace, bind_ok, orAbort_ok] at h
-  obtain ⟨a2, ha2, ⟨c3, placed⟩, _, c4, _, a4, _, h⟩ := h
+  obtain ⟨a2, ha2, ⟨c3, placed⟩, hput, c4, hev, a4, ha4, h⟩ := h
   split at h
   · simp only [pure_ok] at h; subst h; exact fun kv hkv => Or.inl hkv
-  · split at h
+  · rename_i hns
+    split at h
     · simp only [bind_ok, orAbort_ok, pure_ok] at h
       obtain ⟨_, _, _, _, rfl⟩ := h
       exact fun kv hkv => Or.inl hkv
@@ -248,7 +251,16 @@ theorem tryPlace_tracker {revq : List Nat} {st st' : PState} {aid : Nat} {restor
       intro kv hkv
       rcases trackerAdjust_mem hkv with h1 | h1
       · exact Or.inl h1
-      · exact Or.inr ⟨a2, ha2, h1⟩
+      · right
+        cases placed with
+        | false => exact ⟨a2, c3, ha2, h1, hput⟩
+        | true =>
+          exfalso
+          simp only [↓reduceIte, pure_ok] at hev
+          subst hev
+          obtain ⟨a', sid', hc3, hsv⟩ := cellPut_placed hput
+          rw [hc3] at ha4; cases ha4
+          rw [hsv] at hns; simp at hns
 
 theorem tkey_static {c0 c : Cell} (hs : SameStatic c0 c) {a0 a : App} (he : a.stat = a0.stat) :
     c.tkey a = c0.tkey a0 := by
@@ -260,11 +272,13 @@ theorem tkey_static {c0 c : Cell} (hs : SameStatic c0 c) {a0 a : App} (he : a.st
   unfold Cell.tkey Cell.appTraits Cell.allocInfo
   rw [e1, e2, e3, e4, e5, hs.allocs]
 
-/-- Every key the tracker holds after an entry was there before, or is the key of the entry's app. -/
+/-- Every record the tracker holds after an entry was there before, or is `(shape, demand)` of the
+    entry's instance at a moment `cT` of its turn at which it was unplaced and `Cell.put` failed. -/
 theorem placeOne_tracker {revq : List Nat} {st st' : PState} {q : Nat × Bool} {a0 : App}
     (ha0 : st.cell.app? q.1 = some a0) (h : placeOne revq st q = .ok st') :
-    ∀ kv ∈ st'.tracker, kv ∈ st.tracker ∨ kv.1 = st.cell.tkey a0 := by
-  have hfull := placeOne_lreach ha0 h
+    ∀ kv ∈ st'.tracker, kv ∈ st.tracker ∨
+      ∃ cT a2 c3, LReach (PlaceOk a0 false (revq.takeWhile (· ≠ q.1))) st.cell cT ∧ cT.app? q.1 = some a2 ∧
+        a2.server = none ∧ kv = (cT.tkey a2, a2.demand) ∧ cellPut cT q.1 = .ok (c3, false) := by
   simp only [placeOne, bind_ok, orAbort_ok] at h
   obtain ⟨a, ha, h⟩ := h
   rw [ha0] at ha; cases ha
@@ -280,28 +294,45 @@ theorem placeOne_tracker {revq : List Nat} {st st' : PState} {q : Nat × Bool} {
     · simp only [bind_ok, orAbort_ok] at h
       obtain ⟨⟨c1, restore⟩, hrn, a1, ha1, h⟩ := h
       obtain ⟨r1, _⟩ := renewStep_lreach (after := revq.takeWhile (· ≠ q.1)) (by rw [hid]; exact ha0) hbl' hrn
-      have r2 : Reach st.cell (c1.setApp { a1 with renew := false }) :=
-        r1.toReach.trans (Reach.single ⟨_, setRenew_lprim ha1 false⟩)
+      have r2 : LReach (PlaceOk a0 false (revq.takeWhile (· ≠ q.1))) st.cell (c1.setApp { a1 with renew := false }) :=
+        r1.step (setRenew_lprim ha1 false) ⟨hid.symm, hbl', rfl, by intro e; cases e⟩
+      have hid1 : a1.id = q.1 := app?_id ha1
+      have hself : (c1.setApp { a1 with renew := false }).app? q.1 = some { a1 with renew := false } := by
+        have e1 : ({ a1 with renew := false } : App).id = q.1 := hid1
+        rw [← e1]; exact app?_setApp_self (a := a1) (by rw [e1]; exact ha1)
       split at h
       · split at h
         · simp only [throw_ne_ok] at h
         · split at h
           · simp only [throw_ne_ok] at h
           · simp only [pure_ok] at h; subst h; exact fun kv hkv => Or.inl hkv
-      · simp only [bind_ok] at h
+      · rename_i hsvn
+        simp only [bind_ok] at h
         obtain ⟨⟨c2, got, ch⟩, hacq, h⟩ := h
-        have r3 : Reach st.cell c2 := r2.trans (Reach.single ⟨_, .acquire hacq⟩)
+        have r3 : LReach (PlaceOk a0 false (revq.takeWhile (· ≠ q.1))) st.cell c2 :=
+          r2.step (.acquire hacq) ⟨hid.symm, hbl', rfl, _, hself, hsvn⟩
+        have hc2none : ∀ a, c2.app? q.1 = some a → a.server = none := by
+          intro a ha
+          obtain ⟨a', ha', e⟩ := acquire_server hacq a ha
+          rw [hself] at ha'; cases ha'
+          rw [e]; exact hsvn
         split at h
         · simp only [pure_ok] at h; subst h; exact fun kv hkv => Or.inl hkv
         · -- afterAcquire
           simp only [afterAcquire, bind_ok] at h
           obtain ⟨⟨c3, done⟩, hre, h⟩ := h
-          have r4 : Reach st.cell c3 :=
-            r3.trans (restoreEvicted_lreach (a0 := a0) (after := []) hid hbl' hre).toReach
+          have r4 : LReach (PlaceOk a0 false (revq.takeWhile (· ≠ q.1))) st.cell c3 :=
+            r3.trans (restoreEvicted_lreach hid hbl' hre)
           split at h
           · simp only [pure_ok] at h; subst h; exact fun kv hkv => Or.inl hkv
-          · simp only [bind_ok, orAbort_ok] at h
+          · rename_i hdone
+            have hdone' : done = false := by simpa using hdone
+            subst hdone'
+            simp only [bind_ok, orAbort_ok] at h
             obtain ⟨a2, ha2, h⟩ := h
+            have ha2none : a2.server = none := by
+              obtain ⟨a, ha, e⟩ := restoreEvicted_false_server hre a2 ha2
+              rw [e]; exact hc2none a ha
             split at h
             · simp only [bind_ok, pure_ok] at h
               obtain ⟨_, _, rfl⟩ := h; exact fun kv hkv => Or.inl hkv
@@ -309,14 +340,54 @@ theorem placeOne_tracker {revq : List Nat} {st st' : PState} {q : Nat × Bool} {
               · simp only [bind_ok, pure_ok] at h
                 obtain ⟨_, _, rfl⟩ := h; exact fun kv hkv => Or.inl hkv
               · intro kv hkv
-                rcases tryPlace_tracker h kv hkv with h1 | ⟨a2', ha2', hk⟩
+                rcases tryPlace_tracker h kv hkv with h1 | ⟨a2', c3', ha2', hk, hput⟩
                 · exact Or.inl h1
                 · right
-                  simp only at ha2'
-                  have hstat := sameStatic_reach r4
-                  obtain ⟨b0, hb0, est⟩ := app?_stat_of hstat ha2'
-                  rw [ha0] at hb0; cases hb0
-                  rw [hk]; exact tkey_static hstat est
+                  simp only at ha2' hput
+                  rw [ha2] at ha2'; cases ha2'
+                  exact ⟨c3, a2, c3', r4, ha2, ha2none, hk, hput⟩
+
+/-! ### what a tracker record means -/
+
+/-- No up server of the cell passes the `Server.put` checks for the record `a`. -/
+def NoFit (c0 : Cell) (a : App) : Prop :=
+  ∀ S s anc, c0.srv? S = some s → s.state = .up → c0.tree.path S = some anc → srvCheck (c0.putCtx a) s anc ≠ true
+
+/-- Every record `(shape, demand)` of the tracker is sound for the cell `c0` the loop started from:
+    no instance of that shape in a partition `lbl` allocation asking at least that much fits anywhere. -/
+def TrackerOk (c0 : Cell) (lbl : Nat) (tr : List (TKey × Vec)) : Prop :=
+  ∀ kv ∈ tr, ∀ ay : App, c0.tkey ay = kv.1 → (c0.allocInfo ay.alloc).label = lbl →
+    ay.demand.allGe kv.2 = true → NoFit c0 ay
+
+/-- Two records of one placement shape and partition: the server checks that pass for the larger demand
+    pass for the smaller one. -/
+theorem fits_key (c : Cell) {a b : App} (hk : c.tkey a = c.tkey b)
+    (hl : (c.allocInfo a.alloc).label = (c.allocInfo b.alloc).label) (hd : a.demand.allGe b.demand = true)
+    (s : Srv) (anc : List Bkt) (hfit : srvCheck (c.putCtx a) s anc = true) : srvCheck (c.putCtx b) s anc = true := by
+  have eaff : a.aff = b.aff := congrArg TKey.aff hk
+  have elease : a.lease = b.lease := congrArg TKey.lease hk
+  have etr : c.appTraits a = c.appTraits b := congrArg TKey.traits hk
+  have elim : a.limits = b.limits := congrArg TKey.limits hk
+  simp only [srvCheck, Bool.and_eq_true, decide_eq_true_eq, List.all_eq_true, Bool.not_eq_true'] at hfit ⊢
+  obtain ⟨⟨⟨⟨⟨f1, f2⟩, f3⟩, f4⟩, f5⟩, f6⟩ := hfit
+  have eappa : (c.putCtx a).app = a := rfl
+  have eappb : (c.putCtx b).app = b := rfl
+  rw [eappa] at f4 f5 f6
+  rw [eappb]
+  refine ⟨⟨⟨⟨⟨?_, ?_⟩, ?_⟩, ?_⟩, ?_⟩, ?_⟩
+  · simp only [lifetimeOk, Bool.or_eq_true, beq_iff_eq, decide_eq_true_eq] at f1 ⊢
+    have enow : (c.putCtx b).now = (c.putCtx a).now := rfl
+    rw [eappb, enow, ← elease]; exact f1
+  · show s.label = (c.allocInfo b.alloc).label
+    rw [← hl]; exact f2
+  · show hasTraits s.traits (c.appTraits b) = true
+    rw [← etr]; exact f3
+  · rw [← eaff, ← underLimit_congr elim]; exact f4
+  · simp only [Vec.allGe, Vec.allLe, Bool.and_eq_true, decide_eq_true_eq] at hd
+    simp only [Vec.anyGt, Bool.or_eq_false_iff, decide_eq_false_iff_not] at f5 ⊢
+    omega
+  · intro bk hbk
+    rw [← eaff, ← underLimit_congr elim]; exact f6 bk hbk
 
 /-! ### the probe's own turn -/
 
@@ -339,7 +410,7 @@ structure ProbeHyp (c0 : Cell) (p : Nat) (ap : App) : Prop where
 theorem probe_entry {c0 : Cell} {p : Nat} {ap : App} {revq : List Nat} {st st' : PState}
     (h0 : AffAll c0) (hagg : AggOk c0) (hcur : CurOk c0.tree) (hh : ProbeHyp c0 p ap)
     (hreach : Reach c0 st.cell) (hclean : Clean c0 st.cell) (hsame : st.cell.app? p = some ap)
-    (htr : ∀ kv ∈ st.tracker, kv.1 ≠ c0.tkey ap)
+    (htr : TrackerOk c0 (c0.allocInfo ap.alloc).label st.tracker)
     (h : placeOne revq st (p, false) = .ok st') :
     ∃ a' sid', st'.cell.app? p = some a' ∧ a'.server = some sid' := by
   obtain ⟨S, s0, anc0, hs0, hup0, hanc0, hfit0⟩ := hh.fits
@@ -394,11 +465,16 @@ theorem probe_entry {c0 : Cell} {p : Nat} {ap : App} {revq : List Nat} {st st' :
     cases hf : st.tracker.find? (fun q => q.1 = (st.cell.setApp ar).tkey ar) with
     | none => rfl
     | some kv =>
-      exfalso
       have hm := List.mem_of_find?_eq_some hf
       have hk := List.find?_some hf
       simp only [decide_eq_true_eq] at hk
-      exact htr kv hm (by rw [hk, hkey])
+      cases hge : ar.demand.allGe kv.2 with
+      | false => simp [hge]
+      | true =>
+        exfalso
+        have edem : ar.demand = ap.demand := congrArg AppStat.demand arstat
+        obtain ⟨S, s0, anc0, hs0, hup0, hanc0, hfit0⟩ := hh.fits
+        exact htr kv hm ap (by rw [hk, hkey]) rfl (by rw [← edem]; exact hge) S s0 anc0 hs0 hup0 hanc0 hfit0
   rw [hfeas] at h
   simp only [Bool.not_true, Bool.false_eq_true, ↓reduceIte] at h
   -- the fitting server still fits
@@ -433,12 +509,13 @@ theorem probe_entry {c0 : Cell} {p : Nat} {ap : App} {revq : List Nat} {st st' :
 def ProbeInv (c0 : Cell) (p : Nat) (ap : App) (done : List Nat) (st : PState) : Prop :=
   (p ∈ done ∧ ∃ a' sid', st.cell.app? p = some a' ∧ a'.server = some sid') ∨
   (p ∉ done ∧ Reach c0 st.cell ∧ Clean c0 st.cell ∧ st.cell.app? p = some ap ∧
-    ∀ kv ∈ st.tracker, ∃ y ∈ done, ∃ ay, c0.app? y = some ay ∧ kv.1 = c0.tkey ay)
+    TrackerOk c0 (c0.allocInfo ap.alloc).label st.tracker)
 
 theorem probe_loop {c0 : Cell} {p : Nat} {ap : App} {full : List (Nat × Bool)}
     (h0 : AffAll c0) (hagg : AggOk c0) (hcur : CurOk c0.tree) (hh : ProbeHyp c0 p ap)
     (hnd : (full.map (·.1)).Nodup) (hp : (p, false) ∈ full)
-    (hnotwin : ∀ y, AheadOf p (full.map (·.1)) y → ∀ ay, c0.app? y = some ay → c0.tkey ay ≠ c0.tkey ap)
+    (hlbl : ∀ y, AheadOf p (full.map (·.1)) y → ∀ ay, c0.app? y = some ay →
+      (c0.allocInfo ay.alloc).label = (c0.allocInfo ap.alloc).label)
     (stF : PState)
     (hnomove : ∀ y, AheadOf p (full.map (·.1)) y → ¬ MovedTo c0 stF.cell y) :
     ∀ (rest : List (Nat × Bool)) (done : List (Nat × Bool)) (st : PState), full = done ++ rest →
@@ -504,12 +581,7 @@ theorem probe_loop {c0 : Cell} {p : Nat} {ap : App} {full : List (Nat × Bool)}
                 · exact iht hn.2 h1' h2' e
           exact this full hnd hq_mem hp hqp
         rw [hq] at h1
-        have htr' : ∀ kv ∈ st.tracker, kv.1 ≠ c0.tkey ap := by
-          intro kv hkv
-          obtain ⟨y, hy, ay, hay, hk⟩ := htr kv hkv
-          rw [hk]
-          refine hnotwin y ⟨done.map (·.1), q.1 :: rest.map (·.1), hids, hy, hpd⟩ ay hay
-        obtain ⟨a', sid', ha', hsv'⟩ := probe_entry h0 hagg hcur hh hreach hclean hsame htr' h1
+        obtain ⟨a', sid', ha', hsv'⟩ := probe_entry h0 hagg hcur hh hreach hclean hsame htr h1
         exact ⟨by rw [hqp]; simp, a', sid', ha', hsv'⟩
       · -- an entry ahead of the probe: it did not move (final state, hence already now)
         right
@@ -521,12 +593,24 @@ theorem probe_loop {c0 : Cell} {p : Nat} {ap : App} {full : List (Nat × Bool)}
         have hstable : stF.cell.app? q.1 = st1.cell.app? q.1 := loop_stable hrestloop hafterAll.2 hqrest
         have hreach1 : Reach c0 st1.cell := hreach.trans hchain.toReach
         have hstat := sameStatic_reach hreach
-        obtain ⟨b0, hb0, _⟩ := app?_stat_of hstat ha0
+        obtain ⟨b0, hb0, est0⟩ := app?_stat_of hstat ha0
         obtain ⟨b1, hb1, _⟩ := app?_stat_to (sameStatic_lreach hchain) ha0
         have hnm : ¬ ∃ t, b1.server = some t ∧ b0.server ≠ some t := by
           rintro ⟨t, ht1, ht2⟩
           exact hnomove q.1 hahead ⟨b0, b1, t, hb0, by rw [hstable]; exact hb1, ht1, ht2⟩
         have hpne : p ≠ a0.id := by rw [hid0]; exact fun e => hqp e.symm
+        -- any state of the entry's turn in which the entry is unplaced is clean w.r.t. `c0`
+        have hcleanT : ∀ cT, LReach (PlaceOk a0 false ((full.map (·.1)).reverse.takeWhile (· ≠ q.1))) st.cell cT →
+            (∀ a, cT.app? q.1 = some a → a.server = none) → Clean c0 cT := by
+          intro cT hT hnone y d0 d1 hd0 hd1
+          by_cases hy : y = q.1
+          · subst hy; exact Or.inr (hnone d1 hd1)
+          · obtain ⟨d, hd, hcase⟩ := entry_servers_ne hT (by rw [hid0]; exact hy) d1 hd1
+            rcases hcase with e | e
+            · rcases hclean y d0 d hd0 hd with e' | e'
+              · exact Or.inl (e.trans e')
+              · exact Or.inr (e.trans e')
+            · exact Or.inr e
         refine ⟨hpd', hreach1, ?_, ?_, ?_⟩
         · intro y d0 d1 hd0 hd1
           by_cases hy : y = q.1
@@ -547,25 +631,49 @@ theorem probe_loop {c0 : Cell} {p : Nat} {ap : App} {full : List (Nat × Bool)}
               · exact Or.inr (e.trans e')
             · exact Or.inr e
         · rw [unplaced_untouched hchain hpne hsame hh.unplaced]; exact hsame
-        · intro kv hkv
-          rcases placeOne_tracker ha0 h1 kv hkv with hk | hk
-          · obtain ⟨y, hy, ay, hay, e⟩ := htr kv hk
-            exact ⟨y, List.mem_append_left _ hy, ay, hay, e⟩
-          · refine ⟨q.1, by simp, b0, hb0, ?_⟩
-            rw [hk]
-            obtain ⟨b0', hb0', est⟩ := app?_stat_of hstat ha0
+        · -- a new tracker record is sound: `Cell.put` just failed for the entry although placements
+          -- had only shrunk since `c0`
+          intro kv hkv
+          rcases placeOne_tracker ha0 h1 kv hkv with hk | ⟨cT, a2, c3, hT, ha2, ha2none, hk, hput⟩
+          · exact htr kv hk
+          · intro ay hkey hlab hge S s anc hs hup hanc hfit
+            have hreachT : Reach c0 cT := hreach.trans hT.toReach
+            have hstatT := sameStatic_reach hreachT
+            obtain ⟨b0', hb0', estT⟩ := app?_stat_of hstatT ha2
             rw [hb0] at hb0'; cases hb0'
-            exact tkey_static hstat est
+            have hkT : cT.tkey a2 = c0.tkey b0 := tkey_static hstatT estT
+            have edem : a2.demand = b0.demand := congrArg AppStat.demand estT
+            rw [hk] at hkey hge
+            simp only at hkey hge
+            -- the entry's own record at `c0` fits the same server
+            have hfitq : srvCheck (c0.putCtx b0) s anc = true :=
+              fits_key c0 (by rw [hkey, hkT]) (by rw [hlab]; exact (hlbl q.1 hahead b0 hb0).symm)
+                (by rw [← edem]; exact hge) s anc hfit
+            have hcl : Clean c0 cT := hcleanT cT hT (by intro a ha; rw [ha2] at ha; cases ha; exact ha2none)
+            obtain ⟨s1, hs1, ests⟩ := srv?_stat_to hstatT hs
+            have hup1 : s1.state = .up := by
+              have : s1.state = s.state := congrArg SrvStat.state ests
+              rw [this]; exact hup
+            have hallT := affAll_reach h0 hreachT
+            have hname : S ∈ cT.tree.names :=
+              leaves_sub_names _ _ ((hallT.tree.leaves S).mpr ⟨s1, srv?_mem hs1, srv?_id hs1⟩)
+            obtain ⟨anc1, hanc1⟩ := path_exists _ S hname
+            have hfitT := fits_mono (y := q.1) h0 hreachT hcl hb0 ha2 hs hs1 hanc hanc1 hfitq
+            have := put_complete hallT (aggOk_reach h0 hagg hreachT) (curOk_reach hcur hreachT) ha2 hs1 hup1 hanc1
+              hfitT hput
+            cases this
 
 /-- **C02, one `_find_placements` call.**  A pending instance `p` (no identity group, not blacklisted,
     not over its cap) for which some up server passes the `Server.put` checks when the loop starts is
     placed by the loop, provided no instance ahead of it in the queue ends on a server it was not on
-    before (the cell is quiescent for the instances ahead) and no instance ahead has the probe's
-    placement shape. -/
+    before (the cell is quiescent for the instances ahead) and the instances ahead belong to allocations
+    of the probe's partition (one queue = one partition).  The feasibility tracker is covered: every
+    record it holds is sound (`TrackerOk`), so it never skips the probe. -/
 theorem findPlacements_probe {c0 c' : Cell} {p : Nat} {ap : App} {queue : List (Nat × Bool)} {ch ch' : List Nat}
     (h0 : AffAll c0) (hagg : AggOk c0) (hcur : CurOk c0.tree) (hh : ProbeHyp c0 p ap)
     (hnd : (queue.map (·.1)).Nodup) (hp : (p, false) ∈ queue)
-    (hnotwin : ∀ y, AheadOf p (queue.map (·.1)) y → ∀ ay, c0.app? y = some ay → c0.tkey ay ≠ c0.tkey ap)
+    (hlbl : ∀ y, AheadOf p (queue.map (·.1)) y → ∀ ay, c0.app? y = some ay →
+      (c0.allocInfo ay.alloc).label = (c0.allocInfo ap.alloc).label)
     (h : findPlacements c0 queue ch = .ok (c', ch'))
     (hnomove : ∀ y, AheadOf p (queue.map (·.1)) y → ¬ MovedTo c0 c' y) :
     ∃ a' sid', c'.app? p = some a' ∧ a'.server = some sid' := by
@@ -587,22 +695,17 @@ theorem findPlacements_probe {c0 c' : Cell} {p : Nat} {ap : App} {queue : List (
     obtain ⟨S, s, anc, f1, f2, f3, f4⟩ := hh.fits
     refine ⟨by rw [hlook, hh.app]; simp [hapeq], hh.unplaced, hh.notBl, hh.noRenew, hh.noGroup, hh.fresh,
       S, s, anc, f1, f2, f3, f4⟩
-  have hkeys : ∀ y ay, (clearGhost c0).app? y = some ay → ∃ by0, c0.app? y = some by0 ∧
-      (clearGhost c0).tkey ay = c0.tkey by0 := by
-    intro y ay hay
-    rw [hlook] at hay
-    cases hy : c0.app? y with
-    | none => rw [hy] at hay; cases hay
-    | some b =>
-      rw [hy] at hay
-      simp only [Option.map_some, Option.some.injEq] at hay
-      exact ⟨b, rfl, by rw [← hay]; rfl⟩
   have hres := probe_loop (c0 := clearGhost c0) h0' hagg' hcur' hh' hnd hp
     (by
       intro y hy ay hay
-      obtain ⟨b, hb, e⟩ := hkeys y ay hay
-      rw [e]
-      exact hnotwin y hy b hb)
+      rw [hlook] at hay
+      cases hy0 : c0.app? y with
+      | none => rw [hy0] at hay; cases hay
+      | some b =>
+        rw [hy0] at hay
+        simp only [Option.map_some, Option.some.injEq] at hay
+        have := hlbl y hy b hy0
+        rw [← hay]; exact this)
     stF
     (by
       intro y hy hm
